@@ -197,6 +197,49 @@ static void pool_prog()
     pmc_outcome("ctl=%d", from_ctl_task);
 }
 
+// pool suspension on top of individually suspended workers: both workers of the pool are suspended one by
+// one, then the whole pool is suspended and resumed; the calls return and the queued work runs afterwards
+static void pool_after_pu_prog()
+{
+    static Ledger L;
+    L = Ledger{};
+    g = &L;
+    int from_ctl_task = pmc_choose(2, 0);
+    int order = pmc_choose(2, 0);    // which worker is suspended first
+    pmc_on_stuck(on_stuck);
+    rt::config c;
+    c.workers = 3;
+    c.rp_callback = &pools<true>;
+    rt::start(c);
+    watch_states();
+    auto script = [&, order] {
+        auto& pool = pika::resource::get_thread_pool("default");
+        submit(0, -1);
+        L.phase = 1;
+        pool.suspend_processing_unit_direct(order);
+        ++L.calls_returned;
+        pool.suspend_processing_unit_direct(1 - order);
+        ++L.calls_returned;
+        L.phase = 2;
+        pool.suspend_direct();
+        ++L.calls_returned;
+        submit(1, 0);
+        submit(2, -1);
+        L.phase = 3;
+        pool.resume_direct();
+        ++L.calls_returned;
+        submit(3, 1);
+        ++L.finished;
+    };
+    if (from_ctl_task) ex::execute(ex::thread_pool_scheduler{&pika::resource::get_thread_pool("ctl")}, script);
+    else script();
+    L.phase = 4;
+    rt::stop();
+    PMC_ASSERT(L.finished == 1 && L.calls_returned == 4, "call-did-not-return", "script finished %d, calls returned %d of 4", L.finished, L.calls_returned);
+    for (int i = 0; i < 4; ++i) PMC_ASSERT(L.entered[i] == 1 && L.left[i] == 1, "task-lost", "task %d: entered %d, completed %d", i, L.entered[i], L.left[i]);
+    pmc_outcome("ctl=%d order=%d", from_ctl_task, order);
+}
+
 // refused operations leave the pool running
 static void refused_prog()
 {
@@ -250,6 +293,7 @@ int main(int argc, char** argv)
     static const pmc_spec specs[] = {
         {"pu_suspend_resume", pu_prog, 1, 2, 0.4, 0.4, 1, focus, sites, "src"},
         {"pool_suspend_resume", pool_prog, 1, 2, 0.25, 0.25, 1, focus, sites, "src"},
+        {"pool_suspend_after_pu_suspends", pool_after_pu_prog, 0, 1, 0.1, 0.1, 1, focus, sites, "src"},
         {"pu_suspend_with_blocked_task", pu_blocked_prog, 1, 2, 0.2, 0.2, 1, focus, sites, "src"},
         {"refused", refused_prog, 1, 1, 0.15, 0.15, 1, focus, sites, "src"},
     };
